@@ -74,6 +74,7 @@ class FSCM:
         self._solved = {}
         self._masks = {}
         self._np_weights = None
+        self._prob_cache = {}
 
     @staticmethod
     def _make_h(v, args, salt):
@@ -140,6 +141,18 @@ class FSCM:
 
     def prob_items(self, items) -> Fraction:
         """P(conjunction of (name, world, value) items), exact (integer weights, int64 sums cannot overflow for n <= 4)."""
+        import numpy as np
+
+        items = tuple(items)
+        key = frozenset(items)
+        hit = self._prob_cache.get(key)
+        if hit is not None:
+            return hit
+        r = self._prob_items(items)
+        self._prob_cache[key] = r
+        return r
+
+    def _prob_items(self, items) -> Fraction:
         import numpy as np
 
         if self._np_weights is None:
